@@ -132,7 +132,7 @@ srv_harness! { #[kani::unwind(4)] fn c16_wire_v4_mac24_deny() { wire_plain(0x23,
 /// `trailer` bytes (0, or 4..=24 = MAC-sized). Type/length words constant, contents symbolic.
 /// `echo`: number of bytes of unique-identifier fields the answer must carry back (0 = none).
 #[cfg(kani)]
-fn wire_v4_ef(t1: u16, l1: usize, t2: u16, l2: usize, trailer: usize, class: Class, answer_fits: bool) {
+fn wire_v4_ef(t1: u16, l1: usize, t2: u16, l2: usize, trailer: usize, class: Class, answer_fits: bool) -> Outcome {
     let mut buf: [u8; BUF] = kani::any();
     buf[0] = 0x23;
     put_ef_header(&mut buf, 48, t1, l1 as u16);
@@ -142,30 +142,36 @@ fn wire_v4_ef(t1: u16, l1: usize, t2: u16, l2: usize, trailer: usize, class: Cla
     let length = 48 + l1 + l2 + trailer;
     let expect = if class == Class::Time { Kind::Time } else { Kind::DenyKiss };
     let (out, stats) = wire_call!(class, buf, length, expect, answer_fits, false);
-    if answer_fits {
-        kani::cover!(out.kind == Some(expect), "answered");
-        kani::cover!(out.kind == Some(expect) && out.resp_len > 48, "answer carries an extension field");
-    } else {
+    if !answer_fits {
         assert!(out.kind.is_none() && stats.reason == ServerReason::InternalError, "an answer that does not fit the request-sized buffer is not sent and recorded as internal error");
-        kani::cover!(out.kind.is_none(), "answer did not fit: nothing sent");
     }
+    out
+}
+
+#[cfg(kani)]
+fn covers_answered(out: &Outcome, with_field: bool) {
+    kani::cover!(out.kind.is_some() && (out.resp_len > 48) == with_field, "answered, extension field echoed iff it is a unique identifier");
+}
+#[cfg(kani)]
+fn covers_not_sent(out: &Outcome) {
+    kani::cover!(out.kind.is_none(), "answer did not fit: nothing sent");
 }
 
 // unique identifier of 32 bytes (what NTS clients send), alone and followed by a MAC
-srv_harness! { #[kani::unwind(4)] fn c16_wire_v4_uid36_time() { wire_v4_ef(0x0104, 36, 0, 0, 0, Class::Time, true); } }
-srv_harness! { #[kani::unwind(4)] fn c16_wire_v4_uid36_deny() { wire_v4_ef(0x0104, 36, 0, 0, 0, Class::DenyList, true); } }
-srv_harness! { #[kani::unwind(4)] fn c16_wire_v4_uid36_mac20_time() { wire_v4_ef(0x0104, 36, 0, 0, 20, Class::Time, true); } }
+srv_harness! { #[kani::unwind(4)] fn c16_wire_v4_uid36_time() { let o = wire_v4_ef(0x0104, 36, 0, 0, 0, Class::Time, true); covers_answered(&o, true); } }
+srv_harness! { #[kani::unwind(4)] fn c16_wire_v4_uid36_deny() { let o = wire_v4_ef(0x0104, 36, 0, 0, 0, Class::DenyList, true); covers_answered(&o, true); } }
+srv_harness! { #[kani::unwind(4)] fn c16_wire_v4_uid36_mac20_time() { let o = wire_v4_ef(0x0104, 36, 0, 0, 20, Class::Time, true); covers_answered(&o, true); } }
 // two unique identifiers: both echoed
-srv_harness! { #[kani::unwind(5)] fn c16_wire_v4_uid36x2_time() { wire_v4_ef(0x0104, 36, 0x0104, 36, 0, Class::Time, true); } }
+srv_harness! { #[kani::unwind(5)] fn c16_wire_v4_uid36x2_time() { let o = wire_v4_ef(0x0104, 36, 0x0104, 36, 0, Class::Time, true); covers_answered(&o, true); } }
 // unknown field + unique identifier: only the identifier is echoed
-srv_harness! { #[kani::unwind(5)] fn c16_wire_v4_unknown_uid_time() { wire_v4_ef(0x0BAD, 28, 0x0104, 36, 0, Class::Time, true); } }
-// cookie / placeholder fields outside NTS are not echoed
-srv_harness! { #[kani::unwind(5)] fn c16_wire_v4_cookie_ph_time() { wire_v4_ef(0x0204, 40, 0x0304, 40, 0, Class::Time, true); } }
+srv_harness! { #[kani::unwind(5)] fn c16_wire_v4_unknown_uid_time() { let o = wire_v4_ef(0x0BAD, 28, 0x0104, 36, 0, Class::Time, true); covers_answered(&o, true); } }
+// cookie / unknown fields outside NTS are not echoed (a placeholder with non-zero contents is a parse error)
+srv_harness! { #[kani::unwind(5)] fn c16_wire_v4_cookie_ph_time() { let o = wire_v4_ef(0x0204, 40, 0x0BAD, 28, 0, Class::Time, true); covers_answered(&o, false); } }
 // short unique identifier (12 bytes, 16-byte field) + 12-byte MAC: re-encoded with the RFC 7822
 // minimum of 28 bytes for a last field; 48+28 = 76 = request length: fits exactly
-srv_harness! { #[kani::unwind(4)] fn c16_wire_v4_uid16_mac12_time() { wire_v4_ef(0x0104, 16, 0, 0, 12, Class::Time, true); } }
+srv_harness! { #[kani::unwind(4)] fn c16_wire_v4_uid16_mac12_time() { let o = wire_v4_ef(0x0104, 16, 0, 0, 12, Class::Time, true); covers_answered(&o, true); } }
 // the same with a 9-byte trailer (73-byte request): the 76-byte answer does not fit => nothing sent
-srv_harness! { #[kani::unwind(4)] fn c16_wire_v4_uid16_mac9_time() { wire_v4_ef(0x0104, 16, 0, 0, 9, Class::Time, false); } }
+srv_harness! { #[kani::unwind(4)] fn c16_wire_v4_uid16_mac9_time() { let o = wire_v4_ef(0x0104, 16, 0, 0, 9, Class::Time, false); covers_not_sent(&o); } }
 
 // ------------------------------------------------------------------ NTPv5
 pub const DRAFT: &[u8; 23] = b"draft-ietf-ntp-ntpv5-09";
@@ -185,11 +191,7 @@ fn wire_v5(t2: u16, w2: usize, class: Class) {
     kani::assume(fl < 8);
     buf[15] = fl;
     put_ef_header(&mut buf, 48, 0xF5FF, 27);
-    let mut i = 0;
-    while i < 23 {
-        buf[52 + i] = DRAFT[i];
-        i += 1;
-    }
+    put_draft_id(&mut buf, 52);
     let l2 = (w2 + 3) & !3;
     if w2 > 0 {
         put_ef_header(&mut buf, 76, t2, w2 as u16);
@@ -203,10 +205,10 @@ fn wire_v5(t2: u16, w2: usize, class: Class) {
     kani::cover!(out.kind == Some(expect), "answered");
 }
 
-srv_harness! { #[kani::unwind(25)] fn c16_wire_v5_time() { wire_v5(0, 0, Class::Time); } }
-srv_harness! { #[kani::unwind(25)] fn c16_wire_v5_deny() { wire_v5(0, 0, Class::DenyList); } }
-srv_harness! { #[kani::unwind(25)] fn c16_wire_v5_uid_time() { wire_v5(0x0104, 36, Class::Time); } }
-srv_harness! { #[kani::unwind(25)] fn c16_wire_v5_uid_deny() { wire_v5(0x0104, 36, Class::DenyList); } }
-srv_harness! { #[kani::unwind(25)] fn c16_wire_v5_refid_time() { wire_v5(0xF503, 40, Class::Time); } }
-srv_harness! { #[kani::unwind(25)] fn c16_wire_v5_padding_time() { wire_v5(0xF501, 30, Class::Time); } }
-srv_harness! { #[kani::unwind(25)] fn c16_wire_v5_unknown_time() { wire_v5(0x0BAD, 17, Class::Time); } }
+srv_harness! { #[kani::unwind(5)] fn c16_wire_v5_time() { wire_v5(0, 0, Class::Time); } }
+srv_harness! { #[kani::unwind(5)] fn c16_wire_v5_deny() { wire_v5(0, 0, Class::DenyList); } }
+srv_harness! { #[kani::unwind(5)] fn c16_wire_v5_uid_time() { wire_v5(0x0104, 36, Class::Time); } }
+srv_harness! { #[kani::unwind(5)] fn c16_wire_v5_uid_deny() { wire_v5(0x0104, 36, Class::DenyList); } }
+srv_harness! { #[kani::unwind(5)] fn c16_wire_v5_refid_time() { wire_v5(0xF503, 40, Class::Time); } }
+srv_harness! { #[kani::unwind(5)] fn c16_wire_v5_padding_time() { wire_v5(0xF501, 30, Class::Time); } }
+srv_harness! { #[kani::unwind(5)] fn c16_wire_v5_unknown_time() { wire_v5(0x0BAD, 17, Class::Time); } }
